@@ -10,6 +10,7 @@ mod c09;
 mod c10;
 mod c11;
 mod c12;
+mod c13;
 mod c14;
 mod c15;
 mod c16;
@@ -69,6 +70,7 @@ fn main() {
                 "C10" => c10::check(&tier),
                 "C11" => c11::check(&tier),
                 "C12" => c12::check(&tier),
+                "C13" => c13::check(&tier),
                 "C14" => c14::check(&tier),
                 "C15" => c15::check(&tier),
                 "C16" => c16::check(&tier),
